@@ -155,6 +155,14 @@ class SweepSetter(SetterEffects):
             ok = any(field in covered_by(sub, g) for g in groups)
             ctx.oblige(f"persisted-group-writes-the-field[{sub.__name__}]", ok or not after, kind=kind, note=f"update_attribute groups {groups} do not write {field} for {sub.__name__}")
 
+        # every other persistable backing field stored on the way (coupled attributes such as
+        # dip -> vertical) must also be followed by a persistence call that writes it
+        others = [(i, p["name"]) for i, (k, p) in enumerate(events) if k == "setattr" and p["target"] == "self" and p["name"] != field and p["name"].startswith("_") and ".fetch_" not in p.get("value_tag", "")]  # a lazy load from the file is not a store
+        for sub in self.concrete_classes():
+            amap_fields = {"_" + a for a in (getattr(sub, "_attribute_map", {}) or {}).values()} | {"_" + g for g in (_OWN or dispatch_table())}
+            lost = sorted({n for i, n in others if n in amap_fields and not any(j > i and n in covered_by(sub, g) for j, g in persists if isinstance(g, str))})
+            ctx.oblige(f"coupled-stored-fields-are-persisted-after-they-are-stored[{sub.__name__}]", not lost, kind=kind, note="stored after the last persistence call that writes them: " + ", ".join(lost))
+
     def concrete_classes(self):
         return [self.real_sub(p) for p in self.concrete]
 
